@@ -322,9 +322,11 @@ func run(r *lib.Run) {
 	pnode.Quiet()
 	r.SetRule("histories: seeded by (seed, index); 5..60 puts into a 1 MB store, values 5..45 kB each unique (header = history, put counter), four classes by bytes issued (10-60 %, 95.5-99.5 %, just over capacity, 115-170 % = several prunes), overwrites of earlier ids with probability 0, 1/8 or 1/5, 0-3 clean restarts inside the history; half of the histories use node id 0 with palindromic content ids (little- and big-endian readings of a distance coincide), the others random node ids. " +
 		"crash points: a counting pass observes ops(h) = number of state-changing FS operations (create, write, sync, dir sync, rename, remove, link, reuse, mkdir, lock, preallocate, close — on WAL, sstable, MANIFEST, CURRENT, OPTIONS, marker files and the directory) issued by pebble for h, including those of the initial open, of flushes/compactions started by prune and of clean restarts; then for EVERY k in 1..ops(h) the history is rerun on a fresh FS and the crash state is taken after operation k in the variants keep (all unsynced writes survive), drop (none survive) and mix (all directory operations survive, each file independently keeps its unsynced data or is rolled back to its synced content). " +
+		"Torn writes (crash DURING operation k): when operation k is a Write of n >= 2 bytes (quick tier: to a WAL or MANIFEST file; thorough tier: to any file — sstable, OPTIONS/CURRENT temporary files too) the wrapper knows the file offset of the write (every writable handle starts at 0) and what it overwrote (a recycled log is overwritten in place); images are built in which operations 1..k-1 are complete and only the first c bytes of the write reached the file, for at most 12 values of c: every end of a chunk of pebble v1.1.5's record format inside the buffer (parsed with checksum verification: 32 KiB blocks, 7-byte legacy headers in the MANIFEST, 11-byte recyclable headers in the WAL, zero padding at block ends, the end-of-log trailer; record ends = commit boundaries first, at most 8) and the sampled offsets 1, n/4, n/2, n-1 and 5 bytes past the first chunk end (torn header / torn payload = checksum mismatch or short chunk at the tail). Variant torn: all other unsynced data kept; variant torn-mix (quick: boundary cuts only): every OTHER file rolled back to its synced content with probability 2/3. For each torn image the counters record whether what it returns (every key and value incl. the size record, before NewStorage) differs from both the image without the write and the image with the whole write. " +
 		"Directed probe (same histories): every directory sync is delayed by up to 8 ms or until the next MANIFEST sync (a slow fsync) and the crash is taken at each of the first 12 MANIFEST syncs that complete while an sstable's directory entry is not yet durable. " +
 		"Each image is reopened (pebble.Open + NewStorage), checked, then 5-10 further puts/gets run and it is checked again. SIGKILL engine: a child process runs a history on a real directory and is killed after a seeded number of acknowledged puts; the parent reopens with shisui's NewDB. " +
-		"evaluations = images checked; distinct_nontrivial = distinct (history, k, variant) images that reopened and held >= 1 item")
+		"evaluations = images checked; distinct_nontrivial = distinct (history, k, variant[, cut offset]) images that reopened and held >= 1 item")
+	r.Assume("a write interrupted by the crash leaves a PREFIX of its bytes in the file (cut at record boundaries and sampled offsets); sector reordering inside one write (a later part persisted without an earlier one) and a length extended over unwritten zeroes are not enumerated")
 	r.Assume("all-or-nothing and per-file loss of unsynced data is enumerated, not every sector-level subset; pebble's strict MemFS models what a sync makes durable (file content on file sync, directory entries on directory sync)")
 	r.Assume("the empty database directory exists durably before the history starts (pebble does not sync the parent of its directory)")
 	r.Assume("the harness opens pebble itself with the options of shisui's NewDB (storeutil.OpenFS) because NewDB cannot take a file system; the SIGKILL engine uses NewDB itself")
@@ -447,10 +449,17 @@ func run(r *lib.Run) {
 	if r.Counter("crash_points_reached") == 0 || r.Counter("images_keep") == 0 || r.Counter("images_drop") == 0 {
 		r.FloorMiss("no post-crash image was produced")
 	}
+	if r.Counter("images_torn") == 0 || r.Counter("torn_cuts:record-end") == 0 || r.Counter("torn_writes_on:wal") == 0 {
+		r.FloorMiss("no torn-write image at a WAL record boundary was produced (%d torn images, %d cuts at record ends, %d WAL writes torn)", r.Counter("images_torn"), r.Counter("torn_cuts:record-end"), r.Counter("torn_writes_on:wal"))
+	}
+	if w := r.Counter("crash_at:file.write:wal") + r.Counter("crash_at:file.write:manifest"); r.Counter("torn_writes_on:wal")+r.Counter("torn_writes_on:manifest") != w {
+		r.Warn("%d crash points fell on a WAL/MANIFEST write but %d of them got torn-write images", w, r.Counter("torn_writes_on:wal")+r.Counter("torn_writes_on:manifest"))
+	}
 	if nr, at := r.Counter("k_not_reached"), r.Counter("crash_points_attempted"); at > 0 && nr*5 > at {
 		r.Warn("%d of %d crash points were not reached in their rerun", nr, at)
 	}
-	for _, c := range []string{"histories_with_prune", "histories_ending_over_95pc_full", "prune_on_open_observed", "radius_farthest_confirmed_palindromic"} {
+	for _, c := range []string{"histories_with_prune", "histories_ending_over_95pc_full", "prune_on_open_observed", "radius_farthest_confirmed_palindromic",
+		"torn_images_distinguishable_from_before_and_after", "torn_writes_holding_2+_records:wal", "images_torn-mix"} {
 		if r.Counter(c) == 0 {
 			r.Warn("coverage counter %s is 0", c)
 		}
